@@ -973,6 +973,8 @@ def wiring(ctx, mod):
             ctx.unrec(rule, key, 'no unique element store into %s' % tmpn)
         else:
             v = tv[0].value
+            if isinstance(v, ast.ListComp) and len(v.generators) == 1 and not v.generators[0].ifs and isinstance(tv[0].targets[0].slice, ast.Slice):
+                v = v.elt        # all elements stored at once: tmp[:] = [<element> for o in inputs]
             k = _sub_key(v)
             ok = bool(k) and k[1] == 'r_values' and k[3] is not None and unparse(k[3]) == k[0] + '.value' and k[2] == unparse(rv[0].targets[0].slice)
             ctx.check(rule, key, ok, 'replica mean of the result = func(replica means), an input lacking the replica enters with its central value',
